@@ -247,6 +247,16 @@ Qed.
 
 End Ac.
 
+(* ---- verification is a function of its input --------------------------------------------- *)
+
+Lemma verdict_independent_of_history : forall pre k post,
+  nth_error (history_verdicts (pre ++ k :: post)) (length pre) = Some (tcase_verdict k).
+Proof.
+  intros pre k post. unfold history_verdicts. rewrite map_app. cbn [map].
+  rewrite nth_error_app2 by (rewrite map_length; apply Nat.le_refl).
+  rewrite map_length, Nat.sub_diag. reflexivity.
+Qed.
+
 (* ---- a concrete chain around the small world of ProofsC (non-vacuity) ------------------ *)
 
 Definition w_yts : list (N * yparams) := [(1, mkYP w_cp 16 8 30)].
